@@ -602,8 +602,11 @@ def decide(prop, tier, seed):
         "wall_s": round(wall, 2),
         "violations": len(violations),
     }
-    os.makedirs(os.path.join(VERIF, "evidence"), exist_ok=True)
-    json.dump(ev, open(os.path.join(VERIF, "evidence", f"{prop}.json"), "w"), indent=1)
+    # evidence/ describes runs against /repo itself; a run against another tree (VERIF_REPO: seeded / harmless-change experiments on
+    # scratch copies) must not overwrite it and leaves its record in its own work directory
+    evdir = os.path.join(VERIF, "evidence") if os.path.realpath(REPO) == "/repo" else os.path.join(WORK, "evidence")
+    os.makedirs(evdir, exist_ok=True)
+    json.dump(ev, open(os.path.join(evdir, f"{prop}.json"), "w"), indent=1)
     if violations:
         return 1
     if undecided:
